@@ -7,7 +7,7 @@ use std::{
     task::{Context, Poll},
 };
 
-use crate::{rng::Rng, simnet::bump_progress};
+use crate::{rng::Rng, simnet::{bump_poll, bump_progress}};
 
 /// Installs the H1 decision closure on this thread: every poll of an internally spawned remoc task is
 /// deferred with probability `pct`/100 (tasks whose id is ≡ 0 mod `victim_mod` ten times as likely,
@@ -17,7 +17,7 @@ pub fn install_h1(mut rng: Rng, pct: u64, victim_mod: u64) {
         let p = if victim_mod > 0 && id % victim_mod == 0 { (pct * 10).min(90) } else { pct };
         let defer = p > 0 && rng.below(100) < p;
         if !defer {
-            bump_progress();
+            bump_poll();
         }
         defer
     })));
@@ -150,7 +150,7 @@ pub struct Counted<F> {
 impl<F: Future> Future for Counted<F> {
     type Output = F::Output;
     fn poll(mut self: Pin<&mut Self>, cx: &mut Context<'_>) -> Poll<Self::Output> {
-        bump_progress();
+        bump_poll();
         self.fut.as_mut().poll(cx)
     }
 }
